@@ -494,6 +494,10 @@ class Ncs(Gen):
         for _ in range(n):
             if dup_ok and self.faulty and self.sids() and R.random() < 0.2:
                 out.append(self.gen_story(R.choice(self.sids())))
+            elif self.graveyard_s and R.random() < 0.12 and R.choice(self.graveyard_s) not in self.sids():
+                # a story that was taken out earlier comes back under its old id
+                gid = R.choice([x for x in self.graveyard_s if x not in self.sids()] or [None])
+                out.append(self.gen_story(gid) if gid else self.gen_story())
             elif self.faulty and R.random() < self.P.get('blank_id_rate', 0.0):
                 out.append(self.gen_story(''))          # schema-shaped, but the id is blank
             else:
